@@ -36,6 +36,28 @@ pub struct OpenedValues { pub trace_local: Vec<Fv>, pub trace_next: Option<Vec<F
 
 pub struct OpenedValuesWithLookups { pub base_opened_values: OpenedValues, pub permutation_local: Vec<Fv>, pub permutation_next: Vec<Fv> }
 pub struct BatchOpenedValues { pub instances: Vec<OpenedValuesWithLookups> }
+/// p3 MerkleCap of digests (native commitment): `roots()` / `num_roots()`
+pub struct MerkleCap<const N: usize> { pub cap: Vec<[Fv; N]> }
+impl<const N: usize> MerkleCap<N> {
+    pub fn num_roots(&self) -> (r: usize) ensures r == self.cap@.len() { self.cap.len() }
+    pub fn roots(&self) -> (r: &[[Fv; N]]) ensures r@ == self.cap@ { self.cap.as_slice() }
+}
+impl CircuitBuilder {
+    /// `core::array::from_fn(|_| self.alloc_public_input(label))`: N fresh public inputs, in order (ASSUMED)
+    #[verifier::external_body]
+    pub fn alloc_public_input_array<const N: usize>(&mut self, label: &'static str) -> (r: [ExprId; N])
+        ensures final(self).pubs@ == old(self).pubs@ + r@, final(self).privs@ == old(self).privs@
+    { unimplemented!() }
+    /// `(0..count).map(|_| self.alloc_public_input(label)).collect()` (ASSUMED)
+    #[verifier::external_body]
+    pub fn alloc_public_inputs(&mut self, count: usize, label: &'static str) -> (r: Vec<ExprId>)
+        ensures r@.len() == count, final(self).pubs@ == old(self).pubs@ + r@, final(self).privs@ == old(self).privs@
+    { unimplemented!() }
+}
+/// row-major flattening of a list of fixed-size arrays
+pub open spec fn flat_arr<T, const N: usize>(vv: Seq<[T; N]>) -> Seq<T> decreases vv.len() { if vv.len() == 0 { Seq::empty() } else { flat_arr(vv.drop_last()) + vv.last()@ } }
+pub proof fn lemma_flat_arr_push<T, const N: usize>(vv: Seq<[T; N]>, v: [T; N]) ensures flat_arr(vv.push(v)) == flat_arr(vv) + v@ { assert(vv.push(v).drop_last() =~= vv); }
+pub proof fn lemma_flat_arr_take<T, const N: usize>(vv: Seq<[T; N]>, k: int) requires 0 <= k < vv.len() ensures flat_arr(vv.take(k + 1)) == flat_arr(vv.take(k)) + vv[k]@ { assert(vv.take(k + 1).drop_last() =~= vv.take(k)); }
 pub open spec fn flat_opt<T>(o: Option<Vec<T>>) -> Seq<T> { match o { Some(v) => v@, None => Seq::empty() } }
 pub open spec fn flat_vv<T>(vv: Seq<Vec<T>>) -> Seq<T> decreases vv.len() { if vv.len() == 0 { Seq::empty() } else { flat_vv(vv.drop_last()) + vv.last()@ } }
 pub proof fn lemma_flat_vv_push<T>(vv: Seq<Vec<T>>, v: Vec<T>) ensures flat_vv(vv.push(v)) == flat_vv(vv) + v@ { assert(vv.push(v).drop_last() =~= vv); }
@@ -107,7 +129,8 @@ def build():
     st = st.replace('OpenedValuesTargets<SC: StarkGenericConfig>', 'OpenedValuesTargets').replace('PhantomData<SC>', 'PhantomData<()>')
     st2 = extract_item(P, r'pub struct OpenedValuesTargetsWithLookups<SC: StarkGenericConfig>').replace('OpenedValuesTargetsWithLookups<SC: StarkGenericConfig>', 'OpenedValuesTargetsWithLookups').replace('OpenedValuesTargets<SC>', 'OpenedValuesTargets')
     st3 = extract_item(P, r'pub\(crate\) struct BatchOpenedValuesTargets<SC: StarkGenericConfig>').replace('BatchOpenedValuesTargets<SC: StarkGenericConfig>', 'BatchOpenedValuesTargets').replace('OpenedValuesTargetsWithLookups<SC>', 'OpenedValuesTargetsWithLookups').replace('pub(crate) ', 'pub ')
-    u.text('verus! {\n' + st + '\n' + st2 + '\n' + st3 + '\n}')
+    st4 = extract_item('recursion/src/pcs/fri/targets.rs', r'pub struct MerkleCapTargets<F, const DIGEST_ELEMS: usize>').replace('MerkleCapTargets<F, const DIGEST_ELEMS: usize>', 'MerkleCapTargets<const DIGEST_ELEMS: usize>').replace('PhantomData<F>', 'PhantomData<()>').replace('    _phantom', '    pub _phantom')
+    u.text('verus! {\n' + st + '\n' + st2 + '\n' + st3 + '\n' + st4 + '\n}')
     u.text(SPEC)
     IMPL = r'impl<SC: StarkGenericConfig> Recursive<SC::Challenge> for OpenedValuesTargets<SC>'
 
@@ -218,6 +241,75 @@ def build():
     g3.at_loop_end('for b_ in 0..', 'proof { assert(input.instances@.take(b_ + 1).drop_last() =~= input.instances@.take(b_ as int)); assert(input.instances@.take(b_ + 1).last() == input.instances@[b_ as int]); }')
     g3.loop('for b_ in 0..', invariants=[('done', 'values@ == values_flat_b(input.instances@.take(b_ as int))')])
     g3.bind_tail('r_', 'proof { assert(input.instances@.take(input.instances@.len() as int) =~= input.instances@); }')
+
+    # ---------------------------------------------------------------- Merkle cap commitment targets (public inputs)
+    from units.sched import unmap_collect as _umc
+    T = 'recursion/src/pcs/fri/targets.rs'
+    IMPLM = r'impl<F: Field, EF: ExtensionField<F>, const DIGEST_ELEMS: usize> Recursive<EF>\s*for MerkleCapTargets<F, DIGEST_ELEMS>'
+    mn = u.extract(T, IMPLM, 'new', 'MerkleCapTargets::new')
+    mn.typename = 'MerkleCapTargets'
+    mn.set_sig('R11', 'fn new(circuit: &mut CircuitBuilder, input: &MerkleCap<DIGEST_ELEMS>) -> MerkleCapTargets<DIGEST_ELEMS>')
+    common(mn)
+    # R6 (general): `(0..N).map(|v| EXPR).collect()` (no block) -> loop pushing EXPR
+    m0 = re.search(r'\(0\.\.', mn.body)
+    if m0:
+        rclose = match_brace(mn.body, m0.start())
+        upper = mn.body[m0.end():rclose]
+        m = re.match(r'\s*\.map\(\|(\w+)\|\s*', mn.body[rclose + 1:])
+        st_ = rclose + 1 + m.end(); i = st_
+        while True:
+            ch = mn.body[i]
+            if ch in '([{':
+                i = match_brace(mn.body, i)
+            elif ch == ')':
+                break
+            i += 1
+        expr = mn.body[st_:i]
+        rest = mn.body[i + 1:]
+        m2 = re.match(r'\s*\.collect\(\)', rest)
+        var = m.group(1) if m.group(1) != '_' else 'r_'
+        mn.body = mn.body[:m0.start()] + f'{{ let mut v_: Vec<[Target; DIGEST_ELEMS]> = Vec::new(); for {var} in 0..{upper} {{ let x_ = {expr}; v_.push(x_); }} v_ }}' + rest[m2.end():]
+        mn.rewrites.append(('R6', '`(0..N).map(|i| EXPR).collect()` -> loop pushing EXPR (EXPR verbatim)', ''))
+    # R6 (general): `core::array::from_fn(|j| EXPR)` -> indexed loop over a fresh array; the loop invariant is generated from EXPR
+    def _ff(mm):
+        jv, ex = mm.group(1), mm.group(2).strip()
+        sp = re.sub(r'\b' + jv + r'\b', 'q_', ex).replace('flat[', 'flat@[')
+        return (f'{{ let mut a_: [Target; DIGEST_ELEMS] = [ExprId(0); DIGEST_ELEMS]; for {jv} in 0..DIGEST_ELEMS '
+                f'invariant forall|q_: int| 0 <= q_ < {jv} ==> a_@[q_] == ({sp}), '
+                f'{{ a_[{jv}] = {ex}; }} a_ }}')
+    mn.rewrite_re('R6', r'core::array::from_fn\(\|(\w+)\| ([^)]+)\)', _ff, min_count=0)
+    mn.ensures('allocation_order_is_row_major', 'final(circuit).pubs@ == old(circuit).pubs@ + flat_arr(ret.cap_targets@)')
+    mn.ensures('one_entry_per_root', 'ret.cap_targets@.len() == input.cap@.len() && final(circuit).privs@ == old(circuit).privs@')
+    lo = mn._loop_open('for r_ in 0..') if 'for r_ in 0..' in mn.body else mn._loop_open('for i in 0..')
+    hdr = 'for r_ in 0..' if 'for r_ in 0..' in mn.body else 'for i in 0..'
+    mn.body = mn.body[:lo + 1] + ' let ghost v_b = v_@; let ghost pb_b = circuit.pubs@; ' + mn.body[lo + 1:]
+    mn.at_loop_end(hdr, """proof {
+                lemma_flat_arr_push(v_b, v_@[v_@.len() - 1]);
+                assert(v_@ =~= v_b.push(v_@[v_@.len() - 1]));
+                assert(circuit.pubs@ =~= p0 + flat_arr(v_@)); // @@A:cap_entry_allocated_contiguously_in_order
+            }""")
+    mn.at_start('let ghost p0 = circuit.pubs@;')
+    mn.before(hdr, 'proof { assert(p0 + flat_arr(Seq::<[Target; DIGEST_ELEMS]>::empty()) =~= p0); }')
+    mn.loop(hdr, invariants=[('done', f"v_@.len() == {'r_' if hdr.startswith('for r_') else 'i'} && circuit.pubs@ == p0 + flat_arr(v_@) && circuit.privs@ == old(circuit).privs@")])
+
+    mg = u.extract(T, IMPLM, 'get_values', 'MerkleCapTargets::get_values')
+    mg.typename = 'MerkleCapTargets'
+    mg.set_sig('R11', 'fn get_values(input: &MerkleCap<DIGEST_ELEMS>) -> Vec<Fv>')
+    mg.rewrite_re('R6', r'input\s*\.roots\(\)\s*\.iter\(\)\s*\.flat_map\(\|entry: &\[<F as PackedValue>::Value; DIGEST_ELEMS\]\| \{\s*entry\.iter\(\)\.map\(\|v\| EF::from\(\*v\)\)\s*\}\)\s*\.collect\(\)',
+                  '{ let rs_ = input.roots(); let mut out_: Vec<Fv> = Vec::new(); for e_ in 0..rs_.len() { let entry = &rs_[e_]; for k_ in 0..DIGEST_ELEMS { let v = &entry[k_]; out_.push(*v); } } out_ }', min_count=1, flags_dotall=True)
+    mg.ensures('values_row_major', 'ret@ == flat_arr(input.cap@)')
+    mg.loop('for e_ in 0..rs_.len()', invariants=[('done', 'rs_@ == input.cap@ && out_@ == flat_arr(input.cap@.take(e_ as int))')])
+    mg.loop('for k_ in 0..DIGEST_ELEMS', invariants=[('row', 'rs_@ == input.cap@ && e_ < rs_@.len() && entry == &rs_@[e_ as int] && out_@ == flat_arr(input.cap@.take(e_ as int)) + entry@.take(k_ as int)')])
+    mg.before('for e_ in 0..rs_.len()', 'proof { assert(input.cap@.take(0) =~= Seq::<[Fv; DIGEST_ELEMS]>::empty()); }')
+    mg.before('for k_ in 0..DIGEST_ELEMS', 'proof { assert(entry@.take(0) =~= Seq::<Fv>::empty()); assert(out_@ + Seq::<Fv>::empty() =~= out_@); }')
+    lo = mg._loop_open('for k_ in 0..DIGEST_ELEMS')
+    mg.at_loop_end('for k_ in 0..DIGEST_ELEMS', 'proof { assert(entry@.take(k_ + 1) =~= entry@.take(k_ as int).push(entry@[k_ as int])); assert((flat_arr(input.cap@.take(e_ as int)) + entry@.take(k_ as int)).push(*v) =~= flat_arr(input.cap@.take(e_ as int)) + entry@.take(k_ + 1)); }')
+    mg.at_loop_end('for e_ in 0..rs_.len()', 'proof { lemma_flat_arr_take(input.cap@, e_ as int); assert(entry@.take(DIGEST_ELEMS as int) =~= entry@); }')
+    mg.bind_tail('r_', 'proof { assert(input.cap@.take(input.cap@.len() as int) =~= input.cap@); }')
+    u.text('verus! {\nimpl<const DIGEST_ELEMS: usize> MerkleCapTargets<DIGEST_ELEMS> {')
+    u.emit(mn)
+    u.emit(mg)
+    u.text('}\n}')
 
     u.text('verus! {\nimpl OpenedValuesTargets {')
     for f in (n, g, gv):
